@@ -201,7 +201,7 @@ def r04_7(run, model):
                       "parser input and the query's byte scanning is dominated by a bounds test on E itself (short-circuit `E < len &&`, "
                       "`E >= len ||`, enclosing while/if, or an earlier `if E >= len { exit }` with no increment in between)")
     n = 0
-    for rel in ("crates/lexer/src/lib.rs", "crates/parser/src/input.rs", "crates/compiler/src/query.rs", "crates/wasm-app/src/lib.rs"):
+    for rel in ("crates/lexer/src/lib.rs", "crates/parser/src/input.rs", "crates/parser/src/parser.rs", "crates/compiler/src/query.rs", "crates/wasm-app/src/lib.rs"):
         if rel not in model.src_files():
             continue
         allf = model.fns(rel)
@@ -345,6 +345,13 @@ def run(run, model):
     from rules import c08
     run.rule("R04.12", "type-checking work is not doubled per nesting level (shared with C03 R03.11): exponential time and memory on nested calls ends in an abort")
     run.try_rule(c03.r03_11, model)
+    from rules import c15
+    run.rule("R04.13", "an interface/core file offered as input is validated before the back end sees it (shared with C15 R15.3): an altered "
+                       "artifact that passes validation panics in the Go back end")
+    try:
+        run.try_rule(c15.r15_3, model, mir)
+    except Exception as e:  # pragma: no cover
+        raise
     run.rule("R04.11", "`go f` on a plain function value does not panic in the back end (shared with C08 R08.7)")
     run.try_rule(c08.r08_7, model)
     from rules import c07
